@@ -97,6 +97,13 @@ theorem apply_sorted_flatten (L R : AMap Node) (hL : (Node.cont L).Valid) (hR : 
     (hsorted : ms.Pairwise (fun a b => a.path ≤ b.path)) : flatten (apply R ms) = flatten L :=
   apply_sorted_perm_flatten L R hL hR hsL hsR hc hi ms hp hsorted
 
+/-- Sorting is not even needed for reconstruction: applying the modifications in the order in
+    which Diff emits them (before `sort.SliceStable`) reconstructs L as well. -/
+theorem apply_emit_flatten (L R : AMap Node) (hL : (Node.cont L).Valid) (hR : (Node.cont R).Valid)
+    (hsL : (Node.cont L).SafeKeys) (hsR : (Node.cont R).SafeKeys) (hc : Compat (.cont L) (.cont R))
+    (hi : (Node.cont L).ItemsHaveScalars) : flatten (apply R (emit L R)) = flatten L :=
+  apply_emit_flatten_core L R hL hR hsL hsR hc hi
+
 /-- … in particular whatever order Go ranged over its maps in while diffing (`EmitRel`,
     YtkModel/Diff.lean): the sorted result reconstructs L. -/
 theorem apply_diff_flatten_any_map_order (L R : AMap Node) (hL : (Node.cont L).Valid) (hR : (Node.cont R).Valid)
